@@ -9,7 +9,10 @@
    A dataset is the Go map ds.Graphs as an association list in ARBITRARY order
    (theorems quantify over permutations).  Quads are identified by position,
    which coincides with Go's pointer identity because neither json-gold nor the
-   harness aliases quad pointers. *)
+   harness aliases quad pointers.
+
+   Follows /repo as of fix b73a54e: findParentInsideGraph does not skip the asking
+   quad any more (`scan_in`); findGraphParent still does (`scan`, `scan_all`). *)
 From Coq Require Import ZArith List String Ascii Bool Arith.
 From GSP Require Import Base.Prelude Value.Time Value.Model.
 Import ListNotations.
